@@ -27,7 +27,7 @@ def render(run) -> str:
     o.append(f"LOC {loc['pump']} {loc['runtime']} {loc['svcs']}")
     for p in run['inj_absent']:
         o.append(f'INJ {p} 0')
-    o.append(f"CLIENTS {run['clients']}")
+    o.append(f"CLIENTS {run['clients']} " + ' '.join(run.get('client_names') or []))
     for side, ev, cl in run['unbinds']:
         o.append(f'UNBIND {side} {ev} {cl}')
     o.append(f"PARENT {run['parent']}")
@@ -46,6 +46,20 @@ def render(run) -> str:
 
 
 # ------------------------------------------------------------------------------------------------ helpers
+CLIENT_NAME_POOL = ['zeta', 'alpha', 'mike', 'client10', 'client2', 'client1', 'A', 'a', 'Z', 'b.c', 'x/y', 'ab', 'abc', '9lives', '_u', 'UPPER',
+                    'lower', 'mixedCase', 'mixedcase', 'c', 'cc', 'ccc', '~tilde', '0']
+
+
+def client_names(rng: Rng, n):
+    """Registered client identifiers in registration order: arbitrary non-empty strings, deliberately NOT in
+    lexicographic order, with prefixes of each other and case variants."""
+    if n <= 0:
+        return []
+    if rng.chance(25):
+        return [f'client{k}' for k in range(n)]
+    return rng.sample(CLIENT_NAME_POOL, n)
+
+
 def classify_events(ports, events):
     """Split the event table by who calls and who handles."""
     outer_callable, inner_callable, inner_handled, outer_handled = [], [], [], []
@@ -125,6 +139,7 @@ def gen_routing_run(rng: Rng, mb, rid, sweep=False):
     oc, ic, ih, oh = classify_events(ports, events)
     mci = mc_info(mb)
     run['clients'] = 1 if mci else 0
+    run['client_names'] = client_names(rng.fork('names'), run['clients'])
     run['loc']['svcs'] = rng.below(3)
     run['parent'] = rng.below(2)
     client_events = [e for e in oc if ports[e['port']]['dir'] == 'provides' and (not mci or e['idx'] not in (mci['claim'], mci['release']))]
@@ -234,15 +249,16 @@ def gen_c10_runs(rng: Rng, mb, n):
     event that is left unbound."""
     origin = mb.cfgspec['origin']
     n_clients = rng.between(0, 3) if mb.mc else 0
+    names = client_names(rng.fork('names'), n_clients)
     runs = []
     for parent in (0, 1):
         run = new_run(f'allbound-parent{parent}', origin)
-        run.update({'clients': n_clients, 'parent': parent, 'probes': 1, 'policy': POL_DEFAULT, 'kind': 'all-bound'})
+        run.update({'clients': n_clients, 'client_names': names, 'parent': parent, 'probes': 1, 'policy': POL_DEFAULT, 'kind': 'all-bound'})
         runs.append(run)
     for side, ev, cl in user_bound_events(mb, n_clients):
         run = new_run(f'unbound-{side}-{ev}-{cl}', origin)
-        run.update({'clients': n_clients, 'parent': rng.below(2), 'probes': 1, 'policy': POL_DEFAULT, 'kind': 'one-unbound',
-                    'unbinds': [[side, ev, cl]]})
+        run.update({'clients': n_clients, 'client_names': names, 'parent': rng.below(2), 'probes': 1, 'policy': POL_DEFAULT,
+                    'kind': 'one-unbound', 'unbinds': [[side, ev, cl]]})
         runs.append(run)
     return runs
 
@@ -259,6 +275,7 @@ def gen_c04_run(rng: Rng, mb, rid, faulty):
     oc, ic, ih, oh = classify_events(ports, events)
     n_clients = rng.between(1, 4)
     run['clients'] = n_clients
+    run['client_names'] = client_names(rng.fork('names'), n_clients)
     run['parent'] = rng.below(2)
     mc_out = list(mc['out_events'])
     others = list(mc['other_in'])
@@ -329,6 +346,7 @@ def gen_c11_run(rng: Rng, mb, rid):
     oc, ic, ih, oh = classify_events(ports, events)
     n_clients = rng.between(2, 3)
     run['clients'] = n_clients
+    run['client_names'] = client_names(rng.fork('names'), n_clients)
     mc_out = list(mc['out_events'])
     others = list(mc['other_in'])
     peer_events = [e['idx'] for e in oc if ports[e['port']]['dir'] == 'requires']
